@@ -1,0 +1,43 @@
+//go:build verif
+
+package light
+
+// Contracts for the deductive verifier in /verif (govc). Comments only; build tag "verif".
+//
+// C03. Interface contract of the getter (assumed here; the shrex getter's slot discipline is proved
+// under C06): the result is empty or positionally aligned with the request, and a non-empty sample has
+// been verified against the header for its coordinate.
+//@ extern (github.com/celestiaorg/celestia-node/share/shwap.Getter).GetSamples
+//@   params g ctx hdr indices
+//@   ensures len(result0) == 0 || len(result0) == len(indices)
+
+// The sampling result is persisted before a verdict is returned.
+//@ extern (*github.com/ipfs/go-datastore/autobatch.Datastore).Put
+//@   effect $Stored := err == nil
+
+//@ func selectRandomSamples
+//@   property C03
+//@   trusted
+//@   ensures len(result) == (sampleCount > squareSize*squareSize ? squareSize*squareSize : sampleCount)
+
+// A fresh sampling result owes min(sample count, square area) coordinates and has none available.
+//@ func NewSamplingResult
+//@   property C03
+//@   ensures result != nil && len(result.Available) == 0
+//@   ensures len(result.Remaining) == (sampleCount > squareSize*squareSize ? squareSize*squareSize : sampleCount)
+
+// The availability check: every still-pending coordinate is requested; a coordinate moves to
+// "available" only with a non-empty (hence verified) sample, stays pending otherwise; the updated
+// result is stored before the verdict; success only if nothing stayed pending.
+//@ func (*ShareAvailability).SharesAvailable
+//@   property C03
+//@   noframe
+//@   requires !$Stored && header != nil && header.DAH != nil
+//@   checks err == nil && samples != nil ==> len(samples.Remaining) == 0
+//@   checks err == nil && len(smpls) > 0 ==> $Stored && len(failedSamples) == 0 && len(smpls) == len(idxs)
+//@   loop 1: invariant -1 <= rangeindex && rangeindex < len(samples.Remaining) && len(idxs) == len(samples.Remaining)
+//@   loop 1: invariant forall j int :: 0 <= j && j <= rangeindex ==> idxs[j] == samples.Remaining[j]
+//@   loop 2: invariant -1 <= rangeindex#2 && rangeindex#2 < len(smpls) && len(smpls) == len(idxs)
+//@   loop 2: hint smpls[rangeindex#2].Proof == nil ==> len(failedSamples) == len(head(failedSamples)) + 1 && failedSamples[len(failedSamples)-1] == idxs[rangeindex#2] && len(samples.Available) == len(head(samples.Available))
+//@   loop 2: hint smpls[rangeindex#2].Proof != nil ==> len(samples.Available) == len(head(samples.Available)) + 1 && samples.Available[len(samples.Available)-1] == idxs[rangeindex#2] && len(failedSamples) == len(head(failedSamples))
+//@   loop 2: invariant (exists j int :: 0 <= j && j <= rangeindex#2 && smpls[j].Proof == nil) ==> len(failedSamples) > 0
